@@ -615,7 +615,7 @@ func (t *TriDense) ScaleTri(f float64, a Triangular) {
 // The returned matrix starts at {i,i} of the receiver and extends k-i rows and
 // columns. The final row and column in the resulting matrix is k-1.
 // SliceTri panics with ErrIndexOutOfRange if the slice is outside the capacity
-// of the receiver.
+// of the receiver and with ErrZeroLength if k equals i.
 func (t *TriDense) SliceTri(i, k int) Triangular {
 	return t.sliceTri(i, k)
 }
@@ -623,6 +623,9 @@ func (t *TriDense) SliceTri(i, k int) Triangular {
 func (t *TriDense) sliceTri(i, k int) *TriDense {
 	if i < 0 || t.cap < i || k < i || t.cap < k {
 		panic(ErrIndexOutOfRange)
+	}
+	if i == k {
+		panic(ErrZeroLength)
 	}
 	v := *t
 	v.mat.Data = t.mat.Data[i*t.mat.Stride+i : (k-1)*t.mat.Stride+k]
